@@ -1,6 +1,6 @@
 (* Single entry point of the extracted model: one case in, one canonical ASCII line out. *)
 From Coq Require Import String.
-From Ruler Require Import Bytes Show Base62 Sha256 Bincode StateFiles Bundle RuleSyntax Parser TopoSort ShowRules World Ops Concrete Server Protocol.
+From Ruler Require Import Bytes Show Base62 Sha256 Bincode StateFiles Bundle RuleSyntax Parser TopoSort ShowRules World Work Build Ops Concrete Server Protocol Acts Sched.
 
 (* operations as the harness writes them: names are the 43-character text forms, state files raw bytes *)
 Inductive xop :=
@@ -47,8 +47,72 @@ Inductive case :=
 | CTopo (rules : list rule) (goal : option bytes)
 | CRuleTicket (r : rule)
 | CHistory (coarse : bool) (t0 : N) (ops : list xop)
+| CCrash (with_acts : bool) (coarse : bool) (t0 : N) (ops : list xop)
+| COrder (coarse : bool) (t0 : N) (ops : list xop) (goal : option bytes) (ord : list nat)
 | CTrace (rules_text : bytes) (goal : option bytes) (is_clean : bool) (events : list event)
 | CServe (cache : list (bytes * bytes)) (hist : list (bytes * bytes)) (requests : list (list bytes)).
+
+
+(* ---- crash states of the last operation of a history (Model/Acts.v) ---- *)
+
+Definition c_run (w : cworld) (ops : list cop) : cworld := fold_left (fun w o => fst (c_apply w o)) ops w.
+
+Definition show_state (w : cworld) : bytes := paren (lit "st" :: show_world w).
+
+(* consecutive equal renderings are merged: an action that changes nothing (a `true` line) is no new crash state *)
+Fixpoint dedup_adjacent (l : list bytes) : list bytes :=
+  match l with
+  | a :: ((b :: _) as rest) => if bytes_eqb a b then dedup_adjacent rest else a :: dedup_adjacent rest
+  | _ => l
+  end.
+
+Definition show_act (a : act cticket) : bytes :=
+  match a with
+  | AMkRuler => lit "mkruler"
+  | AMkCache => lit "mkcache"
+  | AMkHist => lit "mkhist"
+  | ANewTable => lit "newtable"
+  | ABackup p t => paren [lit "backup"; show_bytes p; show_bytes (encode62 t)]
+  | ARestore t p => paren [lit "restore"; show_bytes (encode62 t); show_bytes p]
+  | ALine l => paren [lit "line"; show_bytes l]
+  | AWriteHist r _ => paren [lit "writehist"; show_bytes (encode62 (c_hr r))]
+  | AWriteTable _ => lit "writetable"
+  end.
+
+Definition show_crash_run (with_acts : bool) (mode : clock_mode) (t0 : N) (ops : list cop) : bytes :=
+  match rev ops with
+  | [] => lit "(nothing)"
+  | last :: rprefix =>
+      let w := c_run (init_world mode t0) (rev rprefix) in
+      let acts :=
+        match last with
+        | OBuild g => Some (build_acts c_teqb c_hc c_hl c_hr w RULES_PATH g)
+        | OClean g => Some (clean_acts c_teqb c_hc w RULES_PATH g)
+        | _ => None
+        end in
+      match acts with
+      | None => lit "(nothing)"
+      | Some acts =>
+          if with_acts then paren [lit "acts"; show_list show_act acts]
+          else paren [lit "crash";
+                      show_list (fun x => x) (dedup_adjacent (map show_state (crash_states c_teqb c_hr acts w)))]
+      end
+  end.
+
+(* ---- a build under a given work order (Model/Sched.v) ---- *)
+
+Definition show_order_run (mode : clock_mode) (t0 : N) (ops : list cop) (goal : option bytes) (ord : list nat) : bytes :=
+  let w := c_run (init_world mode t0) ops in
+  let valid :=
+    match init_dir cticket w with
+    | Ok (w1, _) => match get_nodes cticket w1 RULES_PATH goal with
+                    | Ok pack => valid_orderb pack ord
+                    | Err _ => true
+                    end
+    | Err _ => true
+    end in
+  let o := build_ord c_teqb c_hc c_hl c_hr ord w RULES_PATH goal in
+  paren [lit "order"; show_bool valid; show_obs (tick (o_world o)) (Some o)].
 
 Definition show_dec_err (e : dec_err) : bytes :=
   match e with
@@ -106,6 +170,9 @@ Definition run_case (c : case) : bytes :=
                                     end) hist))
           None in
       show_list (fun r => show_response (respond rd r)) reqs
+  | CCrash wa coarse t0 ops => show_crash_run wa (if coarse then Coarse else Fine) t0 (flat_map cop_of ops)
+  | COrder coarse t0 ops goal ord =>
+      show_order_run (if coarse then Coarse else Fine) t0 (flat_map cop_of ops) goal ord
   | CHistory coarse t0 ops =>
       show_history_run (if coarse then Coarse else Fine) t0 (flat_map cop_of ops)
   end.
